@@ -40,6 +40,7 @@ type selCase struct {
 
 type onceState struct {
 	state int // 0 idle, 1 running, 2 done
+	vc    vclock
 }
 
 type ThreadX struct {
@@ -59,8 +60,10 @@ type ThreadX struct {
 	chosen int
 	first  bool // for pOnce: this thread must run f
 	lib    bool
+	env    bool // spawned by harness code: an environment actor (master, canceller)
 	site   string
 	depth  int
+	vc     vclock
 }
 
 type transition struct {
@@ -140,6 +143,27 @@ func (e *Exec) pick(trans []transition) transition {
 		}
 		return trans[k]
 	}
+	if e.libPrio {
+		// library-priority schedules: the environment (master, canceller, a yielding handler) moves
+		// only when no library transition is enabled -- exactly the schedules that the native
+		// replay can stage by ordering environment events and letting the library settle in between
+		var prio []transition
+		for _, tr := range trans {
+			if !(tr.t.env || (tr.t.id == 0 && tr.t.pend == pYield)) {
+				prio = append(prio, tr)
+			}
+		}
+		if len(prio) > 0 {
+			trans = prio
+		}
+		// no sleep sets here: under priorities an environment transition can disable another one
+		// (it wakes the library, which then goes first), so the independence relation does not hold
+		k := 0
+		if len(trans) > 1 {
+			k = e.Sched(len(trans))
+		}
+		return trans[k]
+	}
 	ids := make([]transID, len(trans))
 	var cands []int
 	for i, tr := range trans {
@@ -181,10 +205,11 @@ type schedState struct {
 	wg       sync.WaitGroup
 	once     map[*Value]*onceState
 	sleep    map[transID]bool
+	race     *raceState
 }
 
 func (e *Exec) initSched() {
-	e.ss = &schedState{finished: make(chan interface{}, 64), once: map[*Value]*onceState{}, sleep: map[transID]bool{}}
+	e.ss = &schedState{finished: make(chan interface{}, 64), once: map[*Value]*onceState{}, sleep: map[transID]bool{}, race: newRaceState()}
 }
 
 // runThreads runs body as thread 0 and returns what ended the path:
@@ -192,7 +217,7 @@ func (e *Exec) initSched() {
 func (e *Exec) runThreads(body func()) (res interface{}) {
 	e.initSched()
 	ss := e.ss
-	t0 := &ThreadX{id: 0, wake: make(chan struct{}, 1)}
+	t0 := &ThreadX{id: 0, wake: make(chan struct{}, 1), vc: vclock{1}}
 	ss.threads = append(ss.threads, t0)
 	ss.cur = t0
 	ss.wg.Add(1)
@@ -245,7 +270,13 @@ func (e *Exec) spawn(fr *Frame, fn Value, args []Value, instr *ssa.Go) {
 		}
 		t.lib = f.Pkg != nil && e.P.isRepoPkg(f.Pkg) && !strings.Contains(pos.Filename, "zz_verif")
 	}
+	t.env = !t.lib
 	ss.threads = append(ss.threads, t)
+	// happens-before: everything the parent did so far precedes the child
+	t.vc = ss.cur.vc.clone()
+	t.tick()
+	ss.cur.tick()
+	ss.race.active = true
 	ss.wg.Add(1)
 	go func() {
 		defer ss.wg.Done()
@@ -410,6 +441,7 @@ func (e *Exec) perform(tr transition) {
 		} else {
 			t.ch.closed = true
 			t.chosen = 0
+			t.releaseTo(&t.ch.closeVC)
 		}
 	case pOnce:
 		if t.once.state == 0 {
@@ -447,18 +479,30 @@ func (e *Exec) doSend(t *ThreadX, ch *ChanObj, v Value, partner *ThreadX, pcase 
 			partner.chosen = pcase
 		}
 		partner.pend = pResume
+		// rendezvous: the send precedes the receive and the receive precedes the completion of the send
+		j := vcJoin(t.vc.clone(), partner.vc)
+		t.vc, partner.vc = j.clone(), j
+		t.tick()
+		partner.tick()
 		return
 	}
 	ch.q = append(ch.q, v)
+	ch.qvc = append(ch.qvc, t.vc.clone())
+	t.tick()
 }
 
 func (e *Exec) doRecv(t *ThreadX, ch *ChanObj) {
 	if len(ch.q) > 0 {
 		t.rval, t.rok = ch.q[0], true
 		ch.q = ch.q[1:]
+		if len(ch.qvc) > 0 {
+			t.acquireFrom(ch.qvc[0])
+			ch.qvc = ch.qvc[1:]
+		}
 		return
 	}
 	// closed
+	t.acquireFrom(ch.closeVC)
 	t.rval, t.rok = e.zero(ch.et), false
 }
 
@@ -560,6 +604,14 @@ func (e *Exec) syncPoint(obj int) {
 	}
 	t.pend, t.syncObj = pSync, obj
 	e.reschedule()
+	// lock-protected access: acquire, then release
+	vc := e.ss.race.syncVC[obj]
+	if vc == nil {
+		vc = new(vclock)
+		e.ss.race.syncVC[obj] = vc
+	}
+	t.acquireFrom(*vc)
+	t.releaseTo(vc)
 }
 
 // quiesce blocks until no other thread can make progress.
@@ -582,6 +634,7 @@ func (e *Exec) onceDo(cell *Value, f Value, caller *Frame) {
 			st.state = 1
 			e.call(caller, f, nil)
 			st.state = 2
+			t.releaseTo(&st.vc)
 		}
 		return
 	}
@@ -591,6 +644,9 @@ func (e *Exec) onceDo(cell *Value, f Value, caller *Frame) {
 		t.first = false
 		e.call(caller, f, nil)
 		st.state = 2
+		t.releaseTo(&st.vc)
+	} else {
+		t.acquireFrom(st.vc)
 	}
 }
 
